@@ -201,8 +201,8 @@ def translate(events, tt):
                 owner = [u for u, lst in pending.items() if idx in lst]
                 if owner:
                     u = owner[0]
-                    out.append("ENQUNTIL %d %s %d %d" % (u, ty, e[6], e[8]))
                     k = pending[u].index(idx)
+                    out.append("ENQN %d %d" % (u, k + 1))      # exactly the tasks up to the fetched one (equal tasks may already wait in the queue)
                     queued.update(pending[u][:k + 1])
                     pending[u] = pending[u][k + 1:]
                 queued.discard(idx)
